@@ -13,8 +13,10 @@ theorem run_cons (w : World) (e : Event) (es : List Event) : run w (e :: es) = r
 /-- `x` is a (non-bypassed) resolution through dae stored under cache key `ck` with original
 deadline `od`. -/
 def IsUpdate (x : World × Event) (ck : Str) (od : Int) : Prop :=
-  ∃ h is4 ttl key, x.2 = .dnsUpdate h is4 ttl key ∧ (dnsUpdate x.1 h is4 ttl key).2 = true ∧
-    updateKey h is4 key = ck ∧ od = x.1.now + ttl
+  (∃ h q ttl key, x.2 = .dnsUpdate h q ttl key ∧ (dnsUpdate x.1 h q ttl key).2 = true ∧
+    updateKey h q key = ck ∧ od = x.1.now + ttl) ∨
+  -- … or an entry carried over from the previous generation by `RestoreReloadCache`
+  (∃ es, x.2 = .dnsRestore es ∧ (ck, od) ∈ es)
 
 /-- what the probe got back, as `probeAndUpdateRealDomain` reads it -/
 def probeResult (w : World) (ans : List Ans) : Ans := resolveAll (ans.take w.nboot) none
@@ -162,7 +164,7 @@ theorem forget_know (w : World) (ck0 : Str) (dl : Int) :
 /-- the name tested by the "pure IP" bypass of `__updateDnsCacheDeadline` -/
 def hostNoDot (host : Str) : Str := if host.getLast? = some '.' then host.dropLast else host
 
-theorem dnsUpdate_eq (w : World) (host : Str) (is4 : Bool) (ttl : Int) (key : Str) :
+theorem dnsUpdate_eq (w : World) (host : Str) (is4 : Nat) (ttl : Int) (key : Str) :
     dnsUpdate w host is4 ttl key =
       if parseAddrOk (hostNoDot host) then (w, false)
       else (remember { w with cache := w.cache.put (updateKey host is4 key) (w.now + ttl) }
@@ -196,7 +198,7 @@ theorem Inv.step {T : List (World × Event)} {w : World} (h : Inv T w) (e : Even
       rw [this]; exact hw
     | true =>
       have hu : IsUpdate (w, Event.dnsUpdate host is4 ttl key) (updateKey host is4 key) (w.now + ttl) :=
-        ⟨host, is4, ttl, key, rfl, hb, rfl, rfl⟩
+        Or.inl ⟨host, is4, ttl, key, rfl, hb, rfl, rfl⟩
       have e1 : (dnsUpdate w host is4 ttl key).1 =
           remember { w with cache := w.cache.put (updateKey host is4 key) (w.now + ttl) }
             (baseKeyOf (updateKey host is4 key)) (w.now + ttl) := by
@@ -238,6 +240,56 @@ theorem Inv.step {T : List (World × Event)} {w : World} (h : Inv T w) (e : Even
           exact ⟨x, hx, ck', hu, h2, hn⟩
         · exact hw1.know bk e hm
       · rw [fr] at hm; exact hw1.real d hm
+  | dnsClose =>
+    exact h.of_shrinks (w' := dnsClose w) ⟨fun _ h => by simp [dnsClose] at h, fun _ h => by simp [dnsClose] at h,
+      fun _ h => h, Int.le_refl _⟩ (fun _ => mem_weaken)
+  | dnsRemoveFamily bk =>
+    have hw := h.of_shrinks (Shrinks.refl w) (fun x => @mem_weaken T x (w, Event.dnsRemoveFamily bk))
+    show Inv _ (dnsRemoveFamily w bk)
+    unfold dnsRemoveFamily
+    split
+    · exact hw
+    · have hw1 : Inv (T ++ [(w, Event.dnsRemoveFamily bk)])
+          { w with cache := w.cache.filter fun e => baseKeyOf e.1 ≠ bk } :=
+        hw.of_shrinks ⟨fun _ h => (List.mem_filter.1 h).1, fun _ h => h, fun _ h => h, Int.le_refl _⟩ (fun _ h => h)
+      obtain ⟨fk, fc, fr, fn⟩ := syncKnow_know { w with cache := w.cache.filter fun e => baseKeyOf e.1 ≠ bk } bk
+      refine ⟨fun ck' od' hm => ?_, fun bk' e hm => ?_, fun d hm => ?_⟩
+      · rw [fc] at hm; rw [fn]; exact hw1.cache ck' od' hm
+      · rw [fn]
+        rcases fk _ hm with ⟨ck', h0, h1, h2⟩ | hm
+        · obtain ⟨x, hx, hu, hn⟩ := hw1.cache ck' e h1
+          exact ⟨x, hx, ck', hu, by rw [h2]; exact h0.symm, hn⟩
+        · exact hw1.know bk' e hm
+      · rw [fr] at hm; exact hw1.real d hm
+  | dnsRestore es =>
+    show Inv _ (dnsRestore w es)
+    -- generalise: restoring a suffix `es'` of `es` from any world satisfying the invariant
+    have key : ∀ (es' : List (Str × Int)) (w' : World), (∀ x, x ∈ es' → x ∈ es) → w'.now = w.now →
+        Inv (T ++ [(w, Event.dnsRestore es)]) w' → Inv (T ++ [(w, Event.dnsRestore es)]) (dnsRestore w' es') := by
+      intro es'
+      induction es' with
+      | nil => intro w' _ _ hi; exact hi
+      | cons e es' ih =>
+        intro w' hsub hnow hi
+        rcases e with ⟨ck, od⟩
+        show Inv _ (dnsRestore (remember { w' with cache := w'.cache.put ck od } (baseKeyOf ck) od) es')
+        have hsrc : IsUpdate (w, Event.dnsRestore es) ck od := Or.inr ⟨es, rfl, hsub _ (by simp)⟩
+        obtain ⟨rk, rc, rr, rn⟩ := remember_know { w' with cache := w'.cache.put ck od } (baseKeyOf ck) od
+        apply ih _ (fun x hx => hsub x (List.mem_cons_of_mem _ hx)) (by rw [rn]; exact hnow)
+        refine ⟨fun ck' od' hm => ?_, fun bk e hm => ?_, fun d hm => ?_⟩
+        · rw [rc] at hm; rw [rn]
+          rcases Assoc.mem_put hm with hm | hm
+          · simp only [Prod.mk.injEq] at hm
+            exact ⟨_, mem_last, by rw [hm.1, hm.2]; exact hsrc, by show w.now ≤ w'.now; omega⟩
+          · exact hi.cache ck' od' hm
+        · rw [rn]
+          rcases rk _ hm with hm | hm
+          · simp only [Prod.mk.injEq] at hm
+            exact ⟨_, mem_last, _, by rw [hm.2]; exact hsrc, hm.1.symm, by show w.now ≤ w'.now; omega⟩
+          · exact hi.know bk e hm
+        · rw [rr] at hm; exact hi.real d hm
+    exact key es w (fun _ h => h) rfl
+      (h.of_shrinks (Shrinks.refl w) (fun x => @mem_weaken T x (w, Event.dnsRestore es)))
   | probeDone d ans =>
     have hw := h.of_shrinks (Shrinks.refl w) (fun x => @mem_weaken T x (w, Event.probeDone d ans))
     show Inv _ (probe w d ans)
@@ -299,6 +351,8 @@ def Holds (w : World) (bk : Str) (od : Int) : Prop :=
 /-- events that cannot lower the entry of `bk`: all but removals inside the family of `bk`. -/
 def keepsFamily (bk : Str) : Event → Prop
   | .dnsRemove ck => baseKeyOf ck ≠ bk
+  | .dnsRemoveFamily bk' => bk' ≠ bk
+  | .dnsClose => False
   | _ => True
 
 theorem Holds.of_same {w w' : World} {bk : Str} {od : Int} (h : Holds w bk od)
@@ -449,6 +503,26 @@ theorem Holds.step {w : World} {bk : Str} {od : Int} (h : Holds w bk od) (e : Ev
     · exact h
     · apply forget_holds _ _ _ hk
       exact h.of_same rfl (Int.le_refl _)
+  | dnsClose => exact absurd hk (by simp [keepsFamily])
+  | dnsRemoveFamily bk' =>
+    show Holds (dnsRemoveFamily w bk') bk od
+    unfold dnsRemoveFamily
+    split
+    · exact h
+    · have := syncKnow_get_ne { w with cache := w.cache.filter fun e => baseKeyOf e.1 ≠ bk' } (bk := bk) hk
+      exact h.of_same this.1 (by rw [this.2]; exact Int.le_refl _)
+  | dnsRestore es =>
+    show Holds (dnsRestore w es) bk od
+    have key : ∀ (es' : List (Str × Int)) (w' : World), Holds w' bk od → Holds (dnsRestore w' es') bk od := by
+      intro es'
+      induction es' with
+      | nil => intro w' h'; exact h'
+      | cons e es' ih =>
+        intro w' h'
+        rcases e with ⟨ck, od'⟩
+        have h2 : Holds { w' with cache := w'.cache.put ck od' } bk od := h'.of_same rfl (Int.le_refl _)
+        exact ih _ (remember_holds h2 _ _)
+    exact key es w h
   | probeDone d ans =>
     have := probe_know w d ans
     show Holds (probe w d ans) bk od
@@ -463,7 +537,7 @@ theorem Holds.run {w : World} {bk : Str} {od : Int} (h : Holds w bk od) (es : Li
     exact ih (h.step e (hk e (by simp))) (fun e' he' => hk e' (by simp [he']))
 
 /-- right after a (non-bypassed) resolution the entry is at least its original deadline. -/
-theorem dnsUpdate_holds (w : World) (host : Str) (is4 : Bool) (ttl : Int) (key : Str)
+theorem dnsUpdate_holds (w : World) (host : Str) (is4 : Nat) (ttl : Int) (key : Str)
     (hu : (dnsUpdate w host is4 ttl key).2 = true) (hne : baseKeyOf (updateKey host is4 key) ≠ []) :
     Holds (dnsUpdate w host is4 ttl key).1 (baseKeyOf (updateKey host is4 key)) (w.now + ttl) := by
   rw [dnsUpdate_eq] at hu ⊢
